@@ -56,7 +56,7 @@ checks = {
    text="Bounded model checking of the real set/set.go: every exported operation after every history of <= k AddRange/Add calls with ARBITRARY arguments over all code points "
         "(membership, union, intersects, complement, extensional equality, operands unmodified, no aliasing) and over a small universe for Len/String; the solver quantifies over all endpoints, limits and probe elements. "
         "Right level because the interval list's case analysis only goes wrong for particular orderings/boundaries, which are solver variables here.",
-   note=NOTE_COMMON + "Bounds: histories of <= 2-3 (quick) / <= 4 (thorough) insertions per set, plus one step (AddRange, every read-only operation) from an ARBITRARY valid interval list of <= 3 (thorough 4) intervals, which covers histories of any length reaching such lists; Len over elements 0..7, String over 0..5; precondition 0 <= begin <= end <= 0x10FFFF; Complement with elements on both sides of the limit.",
+   note=NOTE_COMMON + "Bounds: histories of <= 2-3 (quick) / <= 4 (thorough) insertions per set, plus one step (AddRange, every read-only operation) from an ARBITRARY valid interval list of <= 3 (thorough 4) intervals, which covers histories of any length reaching such lists; Len over elements 0..7, String over 0..5; precondition 0 <= begin <= end <= 0x110000 (code points and the end symbol); Complement with elements on both sides of the limit.",
    design="DESIGN.md 4/C16"),
  "C18": dict(
    text="main.main/getIO/parse are executed symbolically under a nondeterministic environment: flags are symbolic booleans, every open/read/parse/compile/flush/close outcome is a fresh symbolic boolean, "
